@@ -15,32 +15,43 @@ DEFAULT = C.E('default', ('str', 'd'))
 ONE = N.num(1.0)
 
 
-def skeleton(ver, v):
+# tag / column / dict-key names: the default set, and sets that coincide with the words the formats use structurally
+# (JSON object keys meta / cols / rows / name / ver, the id and dis tags) or are single letters
+NAMESETS = [dict(g='gM_1', c='cm', col='n', k='k'), dict(g='name', c='ver', col='n', k='k'), dict(g='rows', c='meta', col='ver', k='cols'),
+            dict(g='v', c='n', col='e', k='r'), dict(g='id', c='dis', col='id', k='id')]
+# (a grid tag called 'ver' and a column tag called 'name' cannot be told from the version / the column's name in Haystack JSON
+# itself, so they are not used; the same words at the OTHER level are ordinary tags)
+
+
+def skeleton(ver, v, nm=None):
+    nm = nm or NAMESETS[0]
     if ver == '2.0':
-        return N.mkgrid('2.0', [('gM_1', v['gmeta']), ('aa', N.MARKER)],
-                        [('n', [('cm', v['cmeta']), ('ab', N.MARKER)]), ('colB2_x', []), ('a', [('dis', ('str', 'C'))])],
+        return N.mkgrid('2.0', [(nm['g'], v['gmeta']), ('aa', N.MARKER)],
+                        [(nm['col'], [(nm['c'], v['cmeta']), ('ab', N.MARKER)]), ('colB2_x', []), ('a', [('dis', ('str', 'C'))])],
                         [(v['cell0'], N.NULL, ONE), (ONE, N.NULL, v['cell1'])])
     nested = N.mkgrid('3.0', [('nm', v['nmeta'])], [('x', [])], [(v['ncell'],)])
-    return N.mkgrid('3.0', [('gM_1', v['gmeta']), ('aa', N.MARKER)],
-                    [('n', [('cm', v['cmeta']), ('ab', N.MARKER)]), ('colB2_x', []), ('a', [('dis', ('str', 'C'))])],
-                    [(v['cell0'], ('list', (ONE, v['lelem'])), N.mkdict([('k', v['dval']), ('m', N.MARKER)])),
+    return N.mkgrid('3.0', [(nm['g'], v['gmeta']), ('aa', N.MARKER)],
+                    [(nm['col'], [(nm['c'], v['cmeta']), ('ab', N.MARKER)]), ('colB2_x', []), ('a', [('dis', ('str', 'C'))])],
+                    [(v['cell0'], ('list', (ONE, v['lelem'])), N.mkdict([(nm['k'], v['dval']), ('m', N.MARKER)])),
                      (nested, N.NULL, v['cell1'])])
 
 
-def assemble(hs, ver, o, absent, verarg='str'):
+def assemble(hs, ver, o, absent, verarg='str', nm=None):
     """The hszinc grid the skeleton denotes, built through the public API from hszinc values `o`."""
-    g = hs.Grid(version=version_argument(hs, ver, verarg), metadata={}, columns=[('n', [('cm', o['cmeta']), ('ab', hs.MARKER)]), ('colB2_x', []), ('a', [('dis', 'C')])])
-    g.metadata['gM_1'] = o['gmeta']
+    nm = nm or NAMESETS[0]
+    n = nm['col']
+    g = hs.Grid(version=version_argument(hs, ver, verarg), metadata={}, columns=[(n, [(nm['c'], o['cmeta']), ('ab', hs.MARKER)]), ('colB2_x', []), ('a', [('dis', 'C')])])
+    g.metadata[nm['g']] = o['gmeta']
     g.metadata['aa'] = hs.MARKER
     if ver == '2.0':
-        r0 = {'n': o['cell0'], 'colB2_x': None, 'a': 1.0}
-        r1 = {'n': 1.0, 'colB2_x': None, 'a': o['cell1']}
+        r0 = {n: o['cell0'], 'colB2_x': None, 'a': 1.0}
+        r1 = {n: 1.0, 'colB2_x': None, 'a': o['cell1']}
     else:
         nested = hs.Grid(version='3.0', columns=['x'] if False else [('x', [])])
         nested.metadata['nm'] = o['nmeta']
         nested.append({'x': o['ncell']})
-        r0 = {'n': o['cell0'], 'colB2_x': [1.0, o['lelem']], 'a': {'k': o['dval'], 'm': hs.MARKER}}
-        r1 = {'n': nested, 'colB2_x': None, 'a': o['cell1']}
+        r0 = {n: o['cell0'], 'colB2_x': [1.0, o['lelem']], 'a': {nm['k']: o['dval'], 'm': hs.MARKER}}
+        r1 = {n: nested, 'colB2_x': None, 'a': o['cell1']}
     if absent:
         del r1['colB2_x']
     g.append(r0)
@@ -96,18 +107,21 @@ def exc_name(e):
 # the engine: one execution = build grid -> dump with hszinc -> read back (own reader or the
 # independent one) -> compare neutral forms
 
-def flat_skeleton(ver, v):
-    return N.mkgrid(ver, [('gM_1', v['gmeta']), ('aa', N.MARKER)],
-                    [('n', [('cm', v['cmeta']), ('ab', N.MARKER)]), ('colB2_x', []), ('a', [('dis', ('str', 'C'))])],
+def flat_skeleton(ver, v, nm=None):
+    nm = nm or NAMESETS[0]
+    return N.mkgrid(ver, [(nm['g'], v['gmeta']), ('aa', N.MARKER)],
+                    [(nm['col'], [(nm['c'], v['cmeta']), ('ab', N.MARKER)]), ('colB2_x', []), ('a', [('dis', ('str', 'C'))])],
                     [(v['cell0'], N.NULL, ONE), (ONE, N.NULL, v['cell1'])])
 
 
-def flat_assemble(hs, ver, o, absent, verarg='str'):
-    g = hs.Grid(version=version_argument(hs, ver, verarg), metadata={}, columns=[('n', [('cm', o['cmeta']), ('ab', hs.MARKER)]), ('colB2_x', []), ('a', [('dis', 'C')])])
-    g.metadata['gM_1'] = o['gmeta']
+def flat_assemble(hs, ver, o, absent, verarg='str', nm=None):
+    nm = nm or NAMESETS[0]
+    n = nm['col']
+    g = hs.Grid(version=version_argument(hs, ver, verarg), metadata={}, columns=[(n, [(nm['c'], o['cmeta']), ('ab', hs.MARKER)]), ('colB2_x', []), ('a', [('dis', 'C')])])
+    g.metadata[nm['g']] = o['gmeta']
     g.metadata['aa'] = hs.MARKER
-    r0 = {'n': o['cell0'], 'colB2_x': None, 'a': 1.0}
-    r1 = {'n': 1.0, 'colB2_x': None, 'a': o['cell1']}
+    r0 = {n: o['cell0'], 'colB2_x': None, 'a': 1.0}
+    r1 = {n: 1.0, 'colB2_x': None, 'a': o['cell1']}
     if absent:
         del r1['colB2_x']
     g.append(r0)
@@ -192,12 +206,13 @@ def trim_grid(hs, g, trim):
     return g
 
 
-def execute(hs, prop, fmt, oracle, ver, shape, multi, form, ents, absent, trim='full', hist='append', verarg='str'):
+def execute(hs, prop, fmt, oracle, ver, shape, multi, form, ents, absent, trim='full', hist='append', verarg='str', names=0):
     """One case.  -> (outcome summary, list of (symptom, sig-extra, detail))"""
     slots = SLOTS3 if (ver == '3.0' and shape == 'full') else SLOTS2
     mode = hs.MODE_ZINC if fmt == 'zinc' else hs.MODE_JSON
     nvals = {s: ents[s].n for s in slots}
-    expected = [trim_neutral(skeleton(ver, nvals) if shape == 'full' else flat_skeleton(ver, nvals), trim)]
+    nm = NAMESETS[names]
+    expected = [trim_neutral(skeleton(ver, nvals, nm) if shape == 'full' else flat_skeleton(ver, nvals, nm), trim)]
     if verarg == 'detect':
         # an undeclared version is 2.0 unless the grid holds a kind that exists only from 3.0 on (C10)
         v3 = (ver == '3.0' and shape == 'full') or any(ents[s].minver == '3.0' or N.needs_v3(ents[s].n) for s in slots)
@@ -206,7 +221,7 @@ def execute(hs, prop, fmt, oracle, ver, shape, multi, form, ents, absent, trim='
     fails = []
     try:
         objs = {s: O.build(ents[s].n, hs, ents[s].hint) for s in slots}
-        g = assemble(hs, ver, objs, absent, verarg) if shape == 'full' else flat_assemble(hs, ver, objs, absent, verarg)
+        g = assemble(hs, ver, objs, absent, verarg, nm) if shape == 'full' else flat_assemble(hs, ver, objs, absent, verarg, nm)
         if hist == 'relocate':
             g = rehistory(hs, g)
         g = trim_grid(hs, g, trim)
@@ -315,46 +330,49 @@ def run_case(ch, st, prop, fmt, oracle, ver, shape, multi, form, which):
     trim = ch.choose('trim', TRIMS)
     hist = ch.choose('hist', HISTS)
     verarg = ch.choose('verarg', VERARGS)
+    names = ch.choose('names', list(range(len(NAMESETS))))
     if trim != 'full' and absent:
         absent = False
-    outcome, fails = execute(hs, prop, fmt, oracle, ver, shape, multi, form, ents, absent, trim, hist, verarg)
+    outcome, fails = execute(hs, prop, fmt, oracle, ver, shape, multi, form, ents, absent, trim, hist, verarg, names)
     if outcome.startswith('skip:'):
         st.skip(outcome[5:])
     devs = [(s, ents[s]) for s in slots if ents[s] is not DEFAULT]
-    names = tuple((s, e.name) for s, e in devs)
-    st.case((ver, shape, multi, form, names, absent, trim, hist, verarg), nontrivial=bool(devs), outcome=(outcome, tuple(sorted(set(e.n[0] for _, e in devs)))),
-            sample={'ver': ver, 'skeleton': shape, 'grids': multi, 'input_form': form, 'slots': dict(names), 'absent_key': absent, 'outcome': outcome,
-                    'map_history': hist, 'version_declared_by': verarg})
+    names_ = tuple((s, e.name) for s, e in devs)
+    st.case((ver, shape, multi, form, names_, absent, trim, hist, verarg, names), nontrivial=bool(devs), outcome=(outcome, tuple(sorted(set(e.n[0] for _, e in devs)))),
+            sample={'ver': ver, 'skeleton': shape, 'grids': multi, 'input_form': form, 'slots': dict(names_), 'absent_key': absent, 'outcome': outcome,
+                    'map_history': hist, 'version_declared_by': verarg, 'names': NAMESETS[names]})
     if not fails:
         return
     # minimise: a failure with several deviations that already occurs with one of them alone is the
     # smaller case's finding (explored too, since exploration is downward closed)
-    ndev = len(devs) + (1 if absent else 0) + (1 if trim != 'full' else 0) + (1 if hist != 'append' else 0) + (1 if verarg != 'str' else 0)
+    ndev = len(devs) + (1 if absent else 0) + (1 if trim != 'full' else 0) + (1 if hist != 'append' else 0) + (1 if verarg != 'str' else 0) + (1 if names else 0)
     if ndev >= 2:
         singles = []
         none = {k: DEFAULT for k in slots}
         for s, e in devs:
-            singles.append(({k: (e if k == s else DEFAULT) for k in slots}, False, 'full', 'append', 'str'))
+            singles.append(({k: (e if k == s else DEFAULT) for k in slots}, False, 'full', 'append', 'str', 0))
         if absent:
-            singles.append((none, True, 'full', 'append', 'str'))
+            singles.append((none, True, 'full', 'append', 'str', 0))
         if trim != 'full':
-            singles.append((none, False, trim, 'append', 'str'))
+            singles.append((none, False, trim, 'append', 'str', 0))
         if hist != 'append':
-            singles.append((none, False, 'full', hist, 'str'))
+            singles.append((none, False, 'full', hist, 'str', 0))
         if verarg != 'str':
-            singles.append((none, False, 'full', 'append', verarg))
-        for sents, sabs, strim, shist, sver in singles:
-            _, sf = execute(hs, prop, fmt, oracle, ver, shape, multi, form, sents, sabs, strim, shist, sver)
+            singles.append((none, False, 'full', 'append', verarg, 0))
+        if names:
+            singles.append((none, False, 'full', 'append', 'str', names))
+        for sents, sabs, strim, shist, sver, snames in singles:
+            _, sf = execute(hs, prop, fmt, oracle, ver, shape, multi, form, sents, sabs, strim, shist, sver, snames)
             if sf and sf[0][0] == fails[0][0]:
                 st.count('failures_subsumed_by_smaller_case')
                 return
     for symptom, extra, detail in fails:
-        sig = {'fmt': fmt, 'ver': ver, 'trim': trim, 'hist': hist, 'verarg': verarg, 'payloads': '|'.join(sorted(e.name for _, e in devs)) or '-',
+        sig = {'fmt': fmt, 'ver': ver, 'trim': trim, 'hist': hist, 'verarg': verarg, 'names': names, 'payloads': '|'.join(sorted(e.name for _, e in devs)) or '-',
                'kinds': '|'.join(sorted(e.n[0] for _, e in devs)) or '-'}
         sig.update({k: v for k, v in extra.items() if k != 'grid'})
         st.fail(symptom, sig,
                 {'prop': prop, 'fmt': fmt, 'oracle': oracle, 'ver': ver, 'shape': shape, 'multi': multi, 'form': form,
-                 'slots': {s: e.name for s, e in devs}, 'absent': absent, 'trim': trim, 'hist': hist, 'verarg': verarg},
+                 'slots': {s: e.name for s, e in devs}, 'absent': absent, 'trim': trim, 'hist': hist, 'verarg': verarg, 'names': names},
                 dict(detail, slots={s: e.name for s, e in devs}))
 
 
@@ -363,7 +381,7 @@ def replay_case(case, st):
     slots = SLOTS3 if (case['ver'] == '3.0' and case['shape'] == 'full') else SLOTS2
     ents = {s: C.BY_NAME[case['slots'][s]] if s in case['slots'] else DEFAULT for s in slots}
     outcome, fails = execute(hs, case['prop'], case['fmt'], case['oracle'], case['ver'], case['shape'], case['multi'],
-                             case['form'], ents, case['absent'], case.get('trim', 'full'), case.get('hist', 'append'), case.get('verarg', 'str'))
+                             case['form'], ents, case['absent'], case.get('trim', 'full'), case.get('hist', 'append'), case.get('verarg', 'str'), case.get('names', 0))
     for symptom, extra, detail in fails:
         st.fail(symptom, dict(extra), case, detail)
 
